@@ -202,6 +202,12 @@ def constructed(rng):
                     op = rng.choice(("mul", "cmul"))
                     out.append("%s * %s %s" % (op, G.fD(c, s), G.fI(ty, v)))
                     out.append("%s * %s %s" % (op, G.fI(ty, v), G.fD(c, s)))
+    # 8. products of exactly +-2^127 / +-2^126 with an integer power of two of every type; Decimals at the ends of an
+    #    integer type's range against that type's -1 / 1 / 2 / ends (native-width fast paths)
+    for dt, it in C.pow2_products() + C.native_width_cases(rng):
+        op = rng.choice(("mul", "cmul"))
+        out.append("%s * %s %s" % (op, dt, it))
+        out.append("%s * %s %s" % (op, it, dt))
     return out
 
 
